@@ -316,7 +316,8 @@ fn judge(c: &Case, files: &BTreeMap<String, String>) -> Option<(String, String)>
         if tail != epi.iter().map(|s| s.as_str()).collect::<Vec<_>>() {
             return Some(("epilogue_misplaced".into(), format!("module {path}: expected trailing {epi:?}, items are {names:?}")));
         }
-        let consts = fi.order.iter().filter(|(k, _)| k == "const").count();
+        // (only the harness's own marker constants: the generator is free to emit constants of its own)
+        let consts = fi.order.iter().filter(|(k, n)| k == "const" && (n.starts_with("PROLOGUE_") || n.starts_with("EPILOGUE_"))).count();
         if consts != pro.len() + epi.len() {
             return Some(("backend_text_duplicated_or_lost".into(), format!("module {path}: {consts} consts for {} prologues/epilogues", pro.len() + epi.len())));
         }
